@@ -353,6 +353,7 @@ func visitInstr(fr *frame, instr ssa.Instruction) continuation {
 	case *ssa.MakeMap:
 		fr.env.set(instr, &Map{keyT: instr.Type().Underlying().(*types.Map).Key()})
 	case *ssa.Range:
+		in.rangeFixed = in.cfg.MapOrderRepoOnly && !(fr.fn.Pkg != nil && strings.HasPrefix(fr.fn.Pkg.Pkg.Path(), "github.com/aquilax/hranoprovod-cli"))
 		fr.env.set(instr, in.rangeIter(fr.get(instr.X), instr.X.Type()))
 	case *ssa.Next:
 		fr.env.set(instr, fr.get(instr.Iter).(iter).next(in))
@@ -805,7 +806,9 @@ func (in *Interp) callSSA(caller *frame, callpos token.Pos, fn *ssa.Function, ar
 	defer func() { in.path.depth-- }()
 
 	if fn.Parent() == nil {
-		if ext := in.lookupExternal(fn); ext != nil {
+		if in.skipExt == fn {
+			in.skipExt = nil // an external deferring to the function's real code for this call
+		} else if ext := in.lookupExternal(fn); ext != nil {
 			fr := &frame{in: in, caller: caller, fn: fn}
 			return ext(in, fr, args)
 		}
@@ -1171,6 +1174,10 @@ type mapIter struct {
 	m       *Map
 	pending []*mapEntry
 	seen    int
+	fixed   bool // this range is not explored (insertion order): code outside the repository in -maporder=repo
+	two     bool // large map: only insertion order and its reverse are explored
+	rev     bool
+	started bool
 }
 
 func (it *mapIter) next(in *Interp) tuple {
@@ -1192,9 +1199,23 @@ func (it *mapIter) next(in *Interp) tuple {
 		return tuple{in.tb.False, nil, nil}
 	}
 	k := 0
-	if len(live) > 1 && in.cfg.MapOrderAll {
-		k = in.choose(len(live), "maporder")
+	if len(live) > 1 && in.cfg.MapOrderAll && !it.fixed {
+		if !it.started && len(live) > mapOrderExhaustiveMax {
+			// k! orders are out of reach: explore two of them (insertion order and its reverse);
+			// every order is one the runtime may pick, so a difference between these two is a
+			// genuine order dependence (the others are outside the claim)
+			it.two = true
+			it.rev = in.choose(2, "maporder") == 1
+		}
+		if it.two {
+			if it.rev {
+				k = len(live) - 1
+			}
+		} else {
+			k = in.choose(len(live), "maporder")
+		}
 	}
+	it.started = true
 	e := live[k]
 	it.pending = append(append([]*mapEntry{}, live[:k]...), live[k+1:]...)
 	return tuple{in.tb.True, e.key, copyVal(e.val)}
@@ -1235,10 +1256,12 @@ func (it *stringIter) next(in *Interp) tuple {
 
 func decodeRuneInString(s string) (rune, int) { return utf8.DecodeRuneInString(s) }
 
+const mapOrderExhaustiveMax = 6
+
 func (in *Interp) rangeIter(x value, t types.Type) iter {
 	switch x := x.(type) {
 	case *Map:
-		it := &mapIter{m: x}
+		it := &mapIter{m: x, fixed: in.rangeFixed}
 		if x != nil {
 			for _, e := range x.entries {
 				if e.live {
